@@ -750,6 +750,23 @@ fn hand_families() -> Vec<(Vec<Decl>, Ty)> {
 			],
 			Ty::Named(1, vec![]),
 		),
+		// newtypes over [u8; N] that own their fixed node, under a one-letter, an empty and a dotted
+		// namespace attribute, and without one
+		(
+			vec![
+				Decl { ident: "T0".into(), name_override: None, ns: Some("a".into()), nparams: 0, body: Body::Newtype(f("0", Ty::ByteArray(4))) },
+				Decl { ident: "T1".into(), name_override: None, ns: Some("".into()), nparams: 0, body: Body::Newtype(f("0", Ty::ByteArray(3))) },
+				Decl { ident: "T2".into(), name_override: None, ns: Some("a.b".into()), nparams: 0, body: Body::Newtype(f("0", Ty::ByteArray(2))) },
+				Decl { ident: "T3".into(), name_override: None, ns: None, nparams: 0, body: Body::Newtype(f("0", Ty::ByteArray(5))) },
+				rec(
+					"T4",
+					0,
+					Some("a"),
+					vec![f("f0", Ty::Named(0, vec![])), f("f1", Ty::Named(1, vec![])), f("f2", Ty::Named(2, vec![])), f("f3", Ty::Named(3, vec![])), fl("f4", Ty::ByteArray(4), "crc32")],
+				),
+			],
+			Ty::Named(4, vec![]),
+		),
 		// recursion and sharing
 		(
 			vec![
